@@ -21,7 +21,8 @@ def asfound_specs():
     out = {}
     for mod, cfg, inv in (("MC_Statements", "Stmt_asfound_F1.cfg", None), ("MC_Statements", "Stmt_asfound_F2.cfg", None),
                           ("Reader", "Reader_asfound_F4a.cfg", "PrintOnce"), ("Reader", "Reader_asfound_F4b.cfg", "PrintOwnPath"),
-                          ("Values", "Values_asfound_F6.cfg", "ProjectionUnchanged")):
+                          ("Values", "Values_asfound_F6.cfg", "ProjectionUnchanged"),
+                          ("Paths", "Paths_asfound_F8a.cfg", None), ("Paths", "Paths_asfound_F8b.cfg", None)):
         r = tlc.run(mod, cfg, tag="self")
         ok = bool(r.violated) and (inv is None or inv in r.violated)
         out[cfg] = {"violated": r.violated, "as_expected": ok}
@@ -69,6 +70,28 @@ def binding():
     bad3 = records.check(ctx, "TraceSolver", [rec_ok, rec_bad], "self", slices=1)
     out["solver_trace"] = {"rejected": sorted(bad3)}
     ok3 = bad3 == {2}
+    # (iv) a statement trace from which one commit event is removed is rejected by TraceStatements.tla
+    from harness import stmttrace
+    import re as _re
+    with dsdlio.Tree({"ns/A.1.0.dsdl": "# head\nuint8 a # doc\nuint8 K = 1\n\nvoid3\n@sealed\n"}, "self") as tr:
+        _verif_trace.drain()
+        pydsdl.read_namespace(tr.path("ns"))
+        evs = _verif_trace.drain()
+    def judge(events):
+        seq, _files = stmttrace.to_sequence(events)
+        wd = tlc.workdir("selfst"); rp = wd / "t.ndjson"
+        rp.write_text("\n".join(json.dumps(x) for x in seq) + "\n")
+        r = tlc.run("TraceStatements", "TraceStatements.cfg", workers=1, env={"RECORDS": str(rp)}, tag="selfst")
+        m = _re.search(r'<<\s*"VERDICT",\s*(\d+),\s*(\{[^}]*\})\s*>>', r.out)
+        tlc.cleanup(r)
+        from harness import tlaval
+        return sorted(tlaval.parse(m.group(2))) if m else None
+    intact = judge(evs)
+    k = next(i for i, e in enumerate(evs) if e["ev"] == "commit" and e["pending"])
+    dropped4 = judge(evs[:k] + evs[k + 1:])
+    out["statement_trace"] = {"events": len(evs), "intact_rejected": intact, "with_dropped_commit_rejected": dropped4}
+    ok4 = intact == [] and bool(dropped4)
+    ok3 = ok3 and ok4
     REPORT["binding"] = out
     print(json.dumps(out, indent=1))
     return ok1 and ok2 and ok3
@@ -80,9 +103,16 @@ def coverage():
                      ("MC_Statements", "Stmt_all_quick.cfg"), ("Layout", "Layout_deep_quick.cfg"), ("Wire", "Wire_types_quick.cfg"),
                      ("Evolve", "Evolve_quick.cfg"), ("Reader", "Reader_files2_bodies.cfg"), ("Namespaces", "NS_tree_quick.cfg"),
                      ("Namespaces", "NS_dirs.cfg"), ("CrossDef", "CrossDef_pairs.cfg"), ("Paths", "Paths.cfg"), ("Expr", "Expr_kinds.cfg"),
-                     ("Constants", "Constants.cfg"), ("Rules", "Rules_quick.cfg"), ("MC_Funnel", "Funnel_mut1.cfg"), ("Values", "Values_acc.cfg")):
+                     ("Constants", "Constants.cfg"), ("Rules", "Rules_quick.cfg"), ("MC_Funnel", "Funnel_mut1.cfg"), ("Values", "Values_acc_quick.cfg"),
+                     ("Floats", "Floats_boundary.cfg"), ("Layout", "Layout_sessions.cfg"), ("MC_Statements", "Stmt_scope_thorough.cfg"),
+                     ("CrossDef", "CrossDef_chain3.cfg"), ("Reader", "Reader_files2_dups.cfg"), ("Wire", "Wire_values_quick.cfg")):
         r = tlc.run(mod, cfg, coverage=True, tag="selfcov", timeout=1800)
-        by_config = {("CrossDef_pairs.cfg", "Third"), ("Expr_kinds.cfg", "Pick2")}     # actions switched off by a constant of that configuration
+        # actions switched off by a constant of that configuration
+        by_config = {("CrossDef_pairs.cfg", "Third"), ("Expr_kinds.cfg", "Pick2"), ("CrossDef_pairs.cfg", "ChainFirst"), ("CrossDef_pairs.cfg", "ChainNext"),
+                     ("CrossDef_chain3.cfg", "First"), ("CrossDef_chain3.cfg", "Second"), ("CrossDef_chain3.cfg", "Third"),
+                     ("Layout_sessions.cfg", "Init"), ("Layout_sessions.cfg", "Pick"), ("Layout_sessions.cfg", "Grow"), ("Layout_sessions.cfg", "BInit"), ("Layout_sessions.cfg", "BNext"),
+                     ("Layout_deep_quick.cfg", "SInit"), ("Layout_deep_quick.cfg", "SPickA"), ("Layout_deep_quick.cfg", "SPickB"),
+                     ("Wire_types_quick.cfg", "X"), ("Values_acc_quick.cfg", "PickA"), ("Values_acc_quick.cfg", "PickB"), ("Values_acc_quick.cfg", "PInit")}
         never = sorted(k for k, v in r.coverage.items() if v[1] == 0 and (cfg, k) not in by_config)
         out[cfg] = {"actions": {k: v[1] for k, v in r.coverage.items()}, "never_taken": never, "distinct_states": r.distinct}
         ok = ok and not never and r.distinct > 1
